@@ -187,6 +187,24 @@ func stdClient() (*fx.Client, *fx.Version) {
 	return fx.NewClient(v), v
 }
 
+// hostileSecondVersion returns a client with v in force from time 0 and, from the given genesis time on, a version under
+// whose rules none of the harness' operations is valid (other hash / signature / key algorithms, tiny size limits, another
+// anchoring-window delta). Operations carry the protocol version they were batched under (0): an anchored operation must be
+// interpreted under that version whatever version is in force at its anchoring time.
+func hostileSecondVersion(v *fx.Version, genesis uint64) *fx.Client {
+	hostile := fx.DefaultProtocol()
+	hostile.GenesisTime = genesis
+	hostile.MultihashAlgorithms = []uint{fx.SHA512}
+	hostile.SignatureAlgorithms = []string{"ES256K"}
+	hostile.KeyAlgorithms = []string{fx.Secp256k1}
+	hostile.MaxOperationSize, hostile.MaxDeltaSize, hostile.MaxOperationHashLength = 60, 30, 40
+	hostile.Patches = []string{"replace"}
+	hostile.MaxOperationTimeDelta = v.P.MaxOperationTimeDelta + 100000
+	c := fx.NewClient(v, fx.NewVersion(hostile, nil))
+	c.SetCurrent(v)
+	return c
+}
+
 func opIDs(p *fx.Pool, pred func(*fx.PoolOp) bool) []string {
 	var out []string
 	for _, id := range p.Order {
